@@ -9,7 +9,8 @@
 (*   Bcast, Elementwise, Pairwise, PairwiseReversed   (applying a          *)
 (*       composite transformation to a composite object)                   *)
 (*   Flatten, Reshape, Index, IndexTuple, Slice, Iterate, Stack, Combine,  *)
-(*   SetItem, BroadcastTo                                                  *)
+(*   SetItem, SetRows, SetTuple (item assignment with general keys),       *)
+(*   GetRows, BroadcastTo                                                  *)
 (* The model has one state per pair of shapes (sx, st) (object shape,      *)
 (* transformation shape).  TLC checks the theorems relating the operators  *)
 (* on every state and prints, per state, the table of specified results    *)
@@ -119,6 +120,47 @@ SetItem(X, i, Y) ==
   LET t == Tail(X.shape) m == Size(t) B == BroadcastTo(Y, t)
   IN Obj(X.shape, [p \in 1..Size(X.shape) |-> IF p > i * m /\ p <= (i + 1) * m THEN B.cell[p - i * m] ELSE X.cell[p]])
 
+\* ---- item assignment / indexing with general NumPy keys -------------------------------
+\* Every key on the first axis resolves to a sequence of DISTINCT first-axis indices (0-based):
+NormIndex(i, n) == IF i < 0 THEN i + n ELSE i                         \* negative index
+RECURSIVE StepRows(_, _, _)
+StepRows(lo, hi, step) == IF step > 0 THEN (IF lo >= hi THEN <<>> ELSE <<lo>> \o StepRows(lo + step, hi, step))
+                          ELSE (IF lo <= hi THEN <<>> ELSE <<lo>> \o StepRows(lo + step, hi, step))
+AllRows(n) == [r \in 1..n |-> r - 1]
+RECURSIVE MaskRowsFrom(_, _)
+MaskRowsFrom(mask, i) == IF i > Len(mask) THEN <<>>
+                         ELSE (IF mask[i] THEN <<i - 1>> ELSE <<>>) \o MaskRowsFrom(mask, i + 1)
+MaskRows(mask) == MaskRowsFrom(mask, 1)                               \* boolean mask over the first axis
+DistinctRows(rows, n) == /\ \A r \in 1..Len(rows) : rows[r] \in 0..(n - 1)
+                         /\ \A r1, r2 \in 1..Len(rows) : r1 # r2 => rows[r1] # rows[r2]
+\* X[rows] (index list / integer array / mask / slice with a step): a new object
+GetRows(X, rows) == LET t == Tail(X.shape) m == Size(t)
+                    IN Obj(<<Len(rows)>> \o t, [q \in 1..(Len(rows) * m) |-> X.cell[rows[((q - 1) \div m) + 1] * m + ((q - 1) % m) + 1]])
+\* X[rows] = Y: Y broadcasts to the selected sub-array, row r of it lands at first-axis index rows[r]
+CanSetRows(X, rows, Y) == /\ X.shape # <<>> /\ DistinctRows(rows, Head(X.shape))
+                          /\ CanBroadcastTo(Y.shape, <<Len(rows)>> \o Tail(X.shape))
+SetRows(X, rows, Y) ==
+  LET t == Tail(X.shape) m == Size(t) BB == BroadcastTo(Y, <<Len(rows)>> \o t)
+  IN Obj(X.shape, [p \in 1..Size(X.shape) |->
+                     LET i == (p - 1) \div m
+                     IN IF \E r \in 1..Len(rows) : rows[r] = i
+                        THEN BB.cell[((CHOOSE r \in 1..Len(rows) : rows[r] = i) - 1) * m + ((p - 1) % m) + 1]
+                        ELSE X.cell[p]])
+\* X[i1, .., ik] = Y (tuple of integers, k <= rank): Y broadcasts to the remaining axes
+CanSetTuple(X, ix, Y) == /\ Len(ix) <= Len(X.shape) /\ \A a \in 1..Len(ix) : ix[a] \in 0..(X.shape[a] - 1)
+                         /\ CanBroadcastTo(Y.shape, SubSeq(X.shape, Len(ix) + 1, Len(X.shape)))
+SetTuple(X, ix, Y) ==
+  LET sub == SubSeq(X.shape, Len(ix) + 1, Len(X.shape)) m == Size(sub)
+      off == Ravel(ix \o [a \in 1..Len(sub) |-> 0], X.shape)
+      BB == BroadcastTo(Y, sub)
+  IN Obj(X.shape, [p \in 1..Size(X.shape) |-> IF p > off /\ p <= off + m THEN BB.cell[p - off] ELSE X.cell[p]])
+\* tmp = X[i]; X[i] = X[j]; X[j] = tmp
+Swap(X, i, j) == LET t == Tail(X.shape) m == Size(t)
+                 IN Obj(X.shape, [p \in 1..Size(X.shape) |->
+                                    LET a == (p - 1) \div m
+                                    IN IF a = i THEN X.cell[j * m + ((p - 1) % m) + 1]
+                                       ELSE IF a = j THEN X.cell[i * m + ((p - 1) % m) + 1] ELSE X.cell[p]])
+
 (***************************************************************************)
 (* One state per pair of shapes                                            *)
 (***************************************************************************)
@@ -204,6 +246,35 @@ SetItemLaw ==
          IN /\ Z.shape = sx
             /\ Index(Z, i) = BroadcastTo(Y, Tail(sx))
             /\ \A j \in 0..(Head(sx) - 1) : j # i => Index(Z, j) = Index(X0, j)
+
+\* item assignment with general keys: a key that selects the rows `rows` is the sequence of single
+\* assignments X[rows[r]] = (r-th item of the broadcast value); reading the rows back returns the
+\* broadcast value; the other rows stay; int / negative / tuple keys agree with X[i] = Y; the swap
+\* through a temporary is two single assignments of the ORIGINAL items
+RECURSIVE SetSeq(_, _, _, _)
+SetSeq(X, rows, BB, r) == IF r > Len(rows) THEN X ELSE SetSeq(SetItem(X, rows[r], Index(BB, r - 1)), rows, BB, r + 1)
+KeyLaws ==
+  sx # <<>> =>
+    LET n == Head(sx)
+        keys == {AllRows(n), StepRows(0, n, 2), StepRows(n - 1, -1, -1), <<n - 1>>, <<n - 1, 0>>,
+                 MaskRows([i \in 1..n |-> i % 2 = 1]), MaskRows([i \in 1..n |-> i = n])}
+    IN \A rows \in keys : (rows # <<>> /\ DistinctRows(rows, n)) =>
+         LET Y == Obj(st, [p \in 1..Size(st) |-> 1000 + p])
+         IN /\ GetRows(X0, AllRows(n)) = X0
+            /\ Iterate(GetRows(X0, rows)) = [r \in 1..Len(rows) |-> Index(X0, rows[r])]
+            /\ CanSetRows(X0, rows, Y) =>
+                 LET Z == SetRows(X0, rows, Y) BB == BroadcastTo(Y, <<Len(rows)>> \o Tail(sx))
+                 IN /\ Z = SetSeq(X0, rows, BB, 1)
+                    /\ GetRows(Z, rows) = BB
+                    /\ \A j \in 0..(n - 1) : (\A r \in 1..Len(rows) : rows[r] # j) => Index(Z, j) = Index(X0, j)
+            /\ CanSetItem(X0, n - 1, Y) =>
+                 /\ SetItem(X0, NormIndex(-1, n), Y) = SetItem(X0, n - 1, Y)
+                 /\ SetTuple(X0, <<n - 1>>, Y) = SetItem(X0, n - 1, Y)
+                 /\ SetRows(X0, <<n - 1>>, Obj(<<1>> \o Tail(sx), BroadcastTo(Y, Tail(sx)).cell)) = SetItem(X0, n - 1, Y)
+            /\ \A ix \in Indices(sx) : SetTuple(X0, ix, Obj(<<>>, <<7>>)).cell = [p \in 1..Size(sx) |-> IF p = Ravel(ix, sx) + 1 THEN 7 ELSE p]
+            /\ \A i, j \in 0..(n - 1) :
+                 /\ Swap(X0, i, j) = SetItem(SetItem(X0, i, Index(X0, j)), j, Index(X0, i))
+                 /\ Swap(Swap(X0, i, j), i, j) = X0
 
 (***************************************************************************)
 (* Table of specified results, one line per state                          *)
